@@ -162,6 +162,76 @@ namespace {
          auto enc = lex.make_enclosure(static_cast<ipr::Delimiter>(d), *lex.make_literal(lex.int_type(), u8"1"));
          offer("xpr_expr", "Enclosure delimiter " + std::to_string(d), "", [enc](ipr::Printer& pp) { pp << ipr::xpr_expr(*enc); });
       }
+      // deep nesting and large pending indentation: every nesting construct repeated, and mixed, to depths where the
+      // indentation no longer fits whatever small unit an implementation writes it in
+      {
+         auto cond = [&]() -> const ipr::Expr& { return *lex.make_literal(lex.bool_type(), u8"c"); };
+         const std::vector<std::string> kinds { "block", "if", "ifelse", "while", "do", "switch", "for", "labeled", "try", "handler", "mixed" };
+         for (auto& kind : kinds)
+            for (int depth : { 1, 2, 3, 5, 8, 10, 11, 12, 16, 21, 22, 33, 43, 64, 90 }) {
+               // regions first (outside in), statements afterwards (inside out)
+               std::vector<impl::Block*> blocks;
+               std::vector<impl::handler_block*> bodies;
+               const ipr::Region* r = z.mk.w.unit.global_region();
+               auto kind_at = [&](int level) -> std::string {
+                  if (kind != "mixed") return kind;
+                  static const char* rot[] = { "block", "if", "while", "try", "handler", "switch", "ifelse" };
+                  return rot[level % 7];
+               };
+               for (int k = 0; k < depth; ++k) {
+                  auto kd = kind_at(k);
+                  if (kd == "block" or kd == "try" or kd == "handler") {
+                     auto b = lex.make_block(*r);
+                     blocks.push_back(b);
+                     if (kd == "handler") {
+                        auto h = b->new_handler(lex.get_identifier(u8"e"), lex.int_type());
+                        r = &h->body().lexical_region;
+                        bodies.push_back(&h->body());
+                     }
+                     else r = &b->lexical_region;
+                  }
+               }
+               const ipr::Stmt* cur = lex.make_break();
+               std::size_t bi = blocks.size(), hi = bodies.size();
+               for (int k = depth - 1; k >= 0; --k) {
+                  auto kd = kind_at(k);
+                  if (kd == "block" or kd == "try") {
+                     auto b = blocks[--bi];
+                     b->add_stmt(*cur);
+                     if (kd == "try") b->new_handler(lex.get_identifier(u8"e"), lex.int_type())->body().add_stmt(*lex.make_break());
+                     cur = b;
+                  }
+                  else if (kd == "handler") {
+                     auto body = bodies[--hi];
+                     body->add_stmt(*cur);
+                     auto b = blocks[--bi];
+                     b->add_stmt(*lex.make_break());
+                     cur = b;
+                  }
+                  else if (kd == "if") cur = lex.make_if(cond(), *cur);
+                  else if (kd == "ifelse") cur = lex.make_if(cond(), *lex.make_break(), *cur);
+                  else if (kd == "while") { auto w = lex.make_while(); w->control = &cond(); w->stmt = cur; cur = w; }
+                  else if (kd == "do") { auto w = lex.make_do(); w->control = &cond(); w->stmt = cur; cur = w; }
+                  else if (kd == "switch") { auto w = lex.make_switch(); w->control = &cond(); w->stmt = cur; cur = w; }
+                  else if (kd == "for") {
+                     auto f = lex.make_for();
+                     f->init = lex.make_phantom(); f->cond = &cond(); f->inc = lex.make_phantom(); f->stmt = cur;
+                     cur = f;
+                  }
+                  else if (kd == "labeled") cur = lex.make_labeled_stmt(*lex.make_id_expr(lex.get_identifier(u8"l")), *cur);
+               }
+               offer("xpr_stmt", "deep " + kind + " x" + std::to_string(depth), "", [cur](ipr::Printer& pp) { pp << ipr::xpr_stmt(*cur); });
+            }
+         auto blk = lex.make_block(*z.mk.w.unit.global_region());
+         blk->add_stmt(*lex.make_break());
+         blk->add_stmt(*lex.make_if(cond(), *lex.make_break()));
+         for (int pre : { 1, 15, 16, 17, 29, 30, 31, 32, 33, 34, 61, 62, 63, 64, 65, 127, 128, 129, 255, 256, 257, 1000, 4097 })
+            offer("xpr_stmt", "block at pending indentation " + std::to_string(pre), "", [blk, pre](ipr::Printer& pp) {
+               pp.indent(pre);
+               pp << ipr::xpr_stmt(*blk);
+               pp.indent(-pre);
+            });
+      }
       return 0;
    }
 
